@@ -1,12 +1,13 @@
 \* repaired design (both switches TRUE): all safety properties, exhaustive
 CONSTANTS
+  InitLen = 3
   MaxLen = 4
-  MaxSrcSteps = 3
+  MaxSrcSteps = 2
   MaxReorgs = 2
   MaxNew = 1
   W = 2
   WV = 2
-  Lag = 1
+  Lag = 0
   MaxFaults = 1
   MaxPolls = 1
   FixH13 = TRUE
